@@ -212,6 +212,47 @@ func c05LogErr(f []string) string {
 	return fmt.Sprintf("ok errors=%d logged=%d whole=%d once=%d lines=%d", readErrors, len(lines), whole, once, gotLines)
 }
 
+// closelag <files> <readers> <tries>: the real OpenFilesToChan over <files> one-line files, <tries> times; right after
+// the batch channel was closed (every reader has called wg.Done()) the status must show no active file and
+// files/files read.  The source calls stopFileReading AFTER wg.Done(), so once in a few hundred runs it does not
+// (known finding; Props: close_status_lag_counterexample).  Only run from the corpus (the witness is a search).
+func c05CloseLag(f []string) string {
+	if len(f) < 4 {
+		return "bad-args"
+	}
+	files, _ := strconv.Atoi(f[1])
+	readers, _ := strconv.Atoi(f[2])
+	tries, _ := strconv.Atoi(f[3])
+	dir, err := os.MkdirTemp(os.Getenv("VERIF_WORK"), "c05lag")
+	if err != nil {
+		dir, err = os.MkdirTemp("", "c05lag")
+		if err != nil {
+			panic(err)
+		}
+	}
+	defer os.RemoveAll(dir)
+	var names []string
+	for i := 0; i < files; i++ {
+		p := filepath.Join(dir, fmt.Sprintf("f%d", i))
+		os.WriteFile(p, []byte("a\n"), 0o644)
+		names = append(names, p)
+	}
+	for k := 0; k < tries; k++ {
+		ch := make(chan string, len(names))
+		for _, n := range names {
+			ch <- n
+		}
+		close(ch)
+		b := batchers.OpenFilesToChan(ch, false, readers, 10, 2)
+		for range b.BatchChan() {
+		}
+		if b.ActiveFileCount() != 0 {
+			return "ok lag=1"
+		}
+	}
+	return "ok lag=0"
+}
+
 func c05LoggerGen(r *Rand, tier string) []string {
 	n := 3
 	if tier == "thorough" {
